@@ -31,10 +31,10 @@ class Item(object):
 
 def run_one(cfg, chooser, max_steps=6000):
     '''Execute one schedule; returns observation dict.'''
-    from wpull.pipeline.pipeline import Pipeline, ItemSource, ItemTask
+    from wpull.pipeline.pipeline import Pipeline, ItemSource, ItemTask, ItemQueue, POISON_PILL
     log = []
     state = {'stop_requested_at': None, 'stop_returned_at': None, 'conc': cfg['conc'], 'supplied': [],
-             'get_item_calls': 0, 'conc_at_stop': None}
+             'get_item_calls': 0, 'conc_at_stop': None, 'available': 1}
     loop = sched.new_loop(chooser, max_steps=max_steps)
 
     class Source(ItemSource):
@@ -51,6 +51,10 @@ def run_one(cfg, chooser, max_steps=6000):
                 self.next += 1
                 log.append(('source_raise', self.next - 1))
                 raise Boom('source')
+            if cfg.get('dynamic') and self.next >= state['available'] and self.next < cfg['items']:
+                # like the URL table: further items only exist once earlier ones have been processed
+                log.append(('get_item_none', None, loop.steps))
+                return None
             if self.next < cfg['items']:
                 item = Item(self.next)
                 self.next += 1
@@ -72,10 +76,21 @@ def run_one(cfg, chooser, max_steps=6000):
                 log.append(('task_raise', self.t, item.n))
                 raise Boom('task')
             log.append(('end', self.t, item.n, loop.steps))
+            if self.t == cfg['tasks'] - 1:
+                state['available'] += cfg.get('dynamic') or 0
+
+    class ObservedQueue(ItemQueue):
+        '''The queue object is a public constructor parameter of Pipeline: observe which items workers take.'''
+        @asyncio.coroutine
+        def get(self):
+            item = yield from super().get()
+            if item is not POISON_PILL:
+                log.append(('dequeued', getattr(item, 'n', repr(item)), loop.steps))
+            return item
 
     source = Source()
     tasks = [Task(t) for t in range(cfg['tasks'])]
-    pipeline = Pipeline(source, tasks)
+    pipeline = Pipeline(source, tasks, item_queue=ObservedQueue())
     pipeline.concurrency = cfg['conc']
 
     def do_stop():
@@ -226,6 +241,12 @@ def judge(obs, part, replay):
         if late_get:
             part.violation('get_item-called-after-stop/' + stop_situation(obs),
                            {'cfg': cfg, 'count': len(late_get)}, replay)
+        # further work = an item that a worker takes from the queue after the stop request returned
+        taken_late = [ev[1] for ev in log[sidx:] if ev[0] == 'dequeued']
+        if taken_late:
+            part.violation('item-taken-from-queue-after-stop', {'cfg': cfg, 'items': taken_late, 'trace': obs['trace'][-30:]}, replay)
+        else:
+            part.count('no_item_taken_after_stop')
         supplied_before = set(ev[1] for ev in log[:sidx] if ev[0] == 'supplied')
         late_starters = [i for (t, i), idx in starts.items() if t == 0 and idx >= sidx]
         for i in late_starters:
@@ -269,6 +290,8 @@ def gen_cfg(rng, small):
     tasks = rng.choice([1, 2] if small else [1, 2, 3])
     conc = rng.choice([1, 2] if small else [1, 2, 3, 4])
     cfg = {'items': items, 'tasks': tasks, 'conc': conc, 'source_delay': rng.random() < 0.4}
+    if rng.random() < 0.3:
+        cfg['dynamic'] = rng.choice([1, 2, 3])
     r = rng.random()
     if r < 0.35:
         cfg['stop'] = True
@@ -298,6 +321,9 @@ DIRECTED = [
     {'items': 2, 'tasks': 2, 'conc': 2, 'task_raises': [1, 0]},
     {'items': 2, 'tasks': 1, 'conc': 1, 'source_raises_at': 1},
     {'items': 0, 'tasks': 1, 'conc': 1},
+    {'items': 3, 'tasks': 1, 'conc': 1, 'dynamic': 2, 'changes': [0, 1]},
+    {'items': 3, 'tasks': 1, 'conc': 1, 'dynamic': 1, 'changes': [2, 3]},
+    {'items': 4, 'tasks': 1, 'conc': 2, 'dynamic': 2, 'changes': [3, 2], 'stop': True},
     {'items': 0, 'tasks': 1, 'conc': 2, 'stop': True},
 ]
 
